@@ -18,7 +18,7 @@ from engine import dump, traces
 FIELDS = ['lower', 'upper', 'summand', 'summation_variable']
 KNOWN_CONSTANTS = ['pi', 'e', 'i', 'j', 'infty']
 KNOWN_FUNCTIONS = ['sin', 'cos', 'exp', 'abs', 'sqrt', 'fact', 'ln', 're']
-PARTS = ['value', 'wide', 'pos', 'tol', 'inf', 'err']       # cfg names; 'wide' = part value, large limits, thinned product
+PARTS = ['value', 'wide', 'pos', 'tol', 'inf', 'err', 'rnd']       # cfg names; 'wide' = part value, large limits, thinned product
 
 
 # ---------------------------------------------------------------- rendering spec records as text
@@ -110,8 +110,59 @@ def body_text(b):
     return comps[0] if len(comps) == 1 else '[' + ', '.join(comps) + ']'
 
 
+_QUOT = {}
+
+
+def _quot_pool():
+    """(n, 'below' | 'above') -> expressions in decimal literals whose exact value is the integer n and whose IEEE double
+    value (left-to-right / * + -, as the library evaluates them) is one rounding error below / above n"""
+    if _QUOT:
+        return _QUOT
+    from decimal import Decimal
+
+    def add(n, expr, a, b, op, k):
+        fa, fb = float(a), float(b)
+        v = (fa / fb if op == '/' else fa * fb) + k
+        if v == n or abs(v - n) > 1e-9:
+            return
+        _QUOT.setdefault((n, 'below' if v < n else 'above'), []).append(expr)
+    for n0 in range(-70, 71):
+        for b in ['0.1', '0.3', '0.7', '0.07', '0.9', '1.1', '0.03', '0.6', '2.3', '1.3', '1.7']:
+            a = format((Decimal(n0) * Decimal(b)).normalize(), 'f')
+            add(n0, '%s/%s' % (a, b), a, b, '/', 0)
+            for k in range(1, 13):
+                add(n0 + k, '%s/%s+%d' % (a, b, k), a, b, '/', k)
+                add(n0 - k, '%s/%s-%d' % (a, b, k), a, b, '/', -k)
+        for m in ['10', '100', '1000']:
+            q = Decimal(n0) / Decimal(m)
+            a = format(q.normalize(), 'f')
+            add(n0, '%s*%s' % (a, m), a, m, '*', 0)
+            for k in (1, 2, 5):
+                add(n0 + k, '%s*%s+%d' % (a, m, k), a, m, '*', k)
+                add(n0 - k, '%s*%s-%d' % (a, m, k), a, m, '*', -k)
+    for key in _QUOT:
+        c = _QUOT[key]
+        c.sort(key=lambda e: (('+' in e[1:]) or ('-' in e[1:]), len(e)))
+        prod = [e for e in c if '*' in e]
+        if prod and c.index(prod[0]) > 1:          # keep a product form among the first few candidates
+            c.remove(prod[0])
+            c.insert(1, prod[0])
+    return _QUOT
+
+
+def quot_text(n, direction, salt=0):
+    c = _quot_pool().get((n, direction))
+    if not c:
+        raise ValueError('no inexact decimal expression for %d (%s)' % (n, direction))
+    return c[salt % min(len(c), 4)]
+
+
 def limit_text(l):
     k, n = l['k'], l['n']
+    if k == 'qbelow':
+        return quot_text(n, 'below', l.get('salt', n))
+    if k == 'qabove':
+        return quot_text(n, 'above', l.get('salt', n))
     if k == 'int':
         return '%d' % n
     if k == 'plusx':
@@ -215,13 +266,15 @@ def observe(aut, stu, cfg, pos, single_as_string=False):
     return cls, detail, kw, scripts, inputs
 
 
-def finding_class(aut, allowed, observed):
+def finding_class(aut, allowed, observed, stu=None):
     a = sum_text(aut)
     if sorted(allowed) == ['config_err'] and observed == 'student_err' and \
             (a['lower'].strip() == '' or a['upper'].strip() == ''):
         return 'author-blank-limit-reported-as-student-error'
     if observed.startswith('other:'):
         return 'unclassified-outcome'
+    if observed in ('correct', 'incorrect') and 'q' in [l['k'][0] for s in (aut, stu or aut) for l in (s['lower'], s['upper'])]:
+        return 'inexactly-written-integer-limit-graded-as-another-sum'
     if set(allowed) <= {'correct', 'incorrect'} and observed in ('correct', 'incorrect'):
         return 'verdict-differs-from-value-equality'
     if set(allowed) <= {'correct', 'incorrect'}:
@@ -236,7 +289,7 @@ def make_signature(aut, stu, cfg, pos, allowed, observed, detail, kw, scripts, i
             'even_odd': kw['even_odd'], 'infty_val': kw['infty_val'], 'infty_val_fact': kw['infty_val_fact'],
             'variables': kw['variables'], 'instructor_vars': kw['instructor_vars'], 'samples': kw['samples'],
             'tolerance': kw.get('tolerance', 'default'), 'user_fact': kw.get('user_fact', False), 'scripts': scripts, 'allowed': sorted(allowed),
-            'observed': observed, 'detail': detail, 'class': finding_class(aut, allowed, observed)}
+            'observed': observed, 'detail': detail, 'class': finding_class(aut, allowed, observed, stu)}
 
 
 # implementation-shaped expectation (drift only): which exception type a single student fault produces today
@@ -488,6 +541,10 @@ def rand_case(rng, i):
         stu['body'] = dict(stu['body'], pole={'on': True, 'at': rng.randint(-6, 8)})
     elif r < .25:
         stu['body'] = dict(stu['body'], v='q')
+    elif r < .33:
+        for f in rng.choice([['lower'], ['upper'], ['lower', 'upper']]):
+            if stu[f]['k'] == 'int':
+                stu[f] = dict(stu[f], k=rng.choice(['qbelow', 'qabove']), salt=rng.randint(0, 3))
     r = rng.random()
     if r < .02:
         aut[rng.choice(['lower', 'upper'])] = dict(aut['lower'], k=rng.choice(['half', 'cplx'])) if aut['lower']['k'] == 'int' else aut['lower']
@@ -503,6 +560,10 @@ def rand_case(rng, i):
         aut['body'] = dict(body, blank=True)
     elif r < .078:
         aut[rng.choice(['lower', 'upper'])] = {'k': 'blank', 'n': 0}
+    elif r < .10:
+        f = rng.choice(['lower', 'upper'])
+        if aut[f]['k'] == 'int':
+            aut[f] = dict(aut[f], k=rng.choice(['qbelow', 'qabove']), salt=rng.randint(0, 3))
     # ---- boxes
     P = [f for f in FIELDS if rng.random() < .75]
     if svar != var and rng.random() < .8:           # a renamed variable mostly comes with both boxes or with neither
@@ -544,7 +605,7 @@ def strip_private(rec):
     """the trace record proper: no adapter-only keys, no rendering hints"""
     def clean(x):
         if isinstance(x, dict):
-            return {k: clean(v) for k, v in x.items() if not k.startswith('_') and k != 'blank_text'}
+            return {k: clean(v) for k, v in x.items() if not k.startswith('_') and k not in ('blank_text', 'salt')}
         if isinstance(x, list):
             return [clean(v) for v in x]
         return x
@@ -596,7 +657,7 @@ def run(ctx):
                 if b is not None:
                     report(ctx, b)
     # code -> spec
-    n = 3000 if ctx.quick else 20000
+    n = 2000 if ctx.quick else 20000
     cases = rand_cases(ctx.rng, n)
     recs = [r for chunk in dump.pmap('engine.adapters.c19', 'observe_chunk', cases) for r in chunk]
     rej = traces.validate(ctx, 'graders/SumGraderTrace.tla', 'graders/SumGraderTrace.cfg', [strip_private(r) for r in recs],
@@ -632,6 +693,8 @@ def run(ctx):
         'no prediction is made where the statement is silent: both limits the same infinity, a finite limit beyond the cutoff, an '
         'instructor-only variable used as summation variable by the student, empty author sum of a vector-valued summand, '
         'invalid variable names, wrong number of inputs, shape mismatches',
+        'an integer limit written as an inexact quotient/product of decimals (0.3/0.1) may be refused as non-integer or taken '
+        'for exactly that integer; any other treatment (truncation to the neighbour) is a violation',
         'ScriptedSampler hands out the scripted sample values in order (engine/fixtures.py)',
     ]
 
